@@ -254,6 +254,24 @@ def run_shards(modname, fn, kwargs_list, nproc=None):
     return merged
 
 
+def run_shards_multi(modname, jobs, nproc=None):
+    """jobs: list of (function name, kwargs)."""
+    nproc = nproc or NPROC
+    merged = Stats()
+    jl = [(modname, fn, kw) for fn, kw in jobs]
+    if len(jl) == 1 or nproc == 1:
+        results = [_shard_entry(j) for j in jl]
+    else:
+        ctx = multiprocessing.get_context('fork')
+        with ctx.Pool(min(nproc, len(jl))) as pool:
+            results = pool.map(_shard_entry, jl, chunksize=1)
+    for status, payload in results:
+        if status != 'ok':
+            raise HarnessError('shard failed:\n' + payload)
+        merged.merge(payload)
+    return merged
+
+
 def shard_seeds(seed, n):
     return [(seed * 1000003 + 7 + i * 104729) % (2 ** 31) for i in range(n)]
 
@@ -263,8 +281,10 @@ def shard_seeds(seed, n):
 def finish(pid, tier, seed, level, rule, stats, t0, assumptions=(), known=None, extra_coverage=None):
     """Write replay files + evidence, print KNOWN-FINDING / VIOLATION lines, return exit code."""
     known = known or Known(pid)
-    os.makedirs(os.path.join(VERIF, 'evidence'), exist_ok=True)
-    os.makedirs(os.path.join(VERIF, 'replays'), exist_ok=True)
+    evdir = os.environ.get('VERIF_EVIDENCE_DIR') or os.path.join(VERIF, 'evidence')
+    rpdir = os.environ.get('VERIF_REPLAY_DIR') or os.path.join(VERIF, 'replays')
+    os.makedirs(evdir, exist_ok=True)
+    os.makedirs(rpdir, exist_ok=True)
     for sig, n in sorted(stats.known.items()):
         print('KNOWN-FINDING: property=%s %s [sig=%s; %d case(s) this run]' % (pid, known.open.get(sig, ''), sig, n))
     seen = set()
@@ -276,7 +296,7 @@ def finish(pid, tier, seed, level, rule, stats, t0, assumptions=(), known=None, 
         seen.add(v['sig'])
         nviol += 1
         name = '%s-%s-%d-%s.json' % (pid, tier, seed, hashlib.blake2b(v['sig'].encode(), digest_size=4).hexdigest())
-        path = os.path.join(VERIF, 'replays', name)
+        path = os.path.join(rpdir, name)
         with open(path, 'w') as f:
             f.write(jdump({'property': pid, 'violation': v, 'case': case}, indent=1))
         print('VIOLATION property=%s replay=%s' % (pid, path))
@@ -302,9 +322,61 @@ def finish(pid, tier, seed, level, rule, stats, t0, assumptions=(), known=None, 
         'property_id': pid, 'tier': tier, 'seed': int(seed), 'level': level, 'coverage': coverage,
         'assumptions': list(assumptions), 'wall_s': round(time.time() - t0, 2), 'violations': nviol,
     }
-    with open(os.path.join(VERIF, 'evidence', '%s.json' % pid), 'w') as f:
+    with open(os.path.join(evdir, '%s.json' % pid), 'w') as f:
         f.write(jdump(ev, indent=1))
     print('%s %s seed=%d: evaluations=%d distinct_nontrivial=%d violations=%d known=%d wall=%.1fs' % (
         pid, tier, seed, stats.evaluations, len(stats.nontrivial), nviol, sum(stats.known.values()),
         time.time() - t0))
     return code
+
+
+# --------------------------------------------------------------------------------------------- bytes in JSON cases
+
+def to_jsonable(o):
+    if isinstance(o, (bytes, bytearray)):
+        return {'hex': bytes(o).hex()}
+    if isinstance(o, dict):
+        return {k: to_jsonable(v) for k, v in o.items()}
+    if isinstance(o, (list, tuple)):
+        return [to_jsonable(v) for v in o]
+    return o
+
+
+def from_jsonable(o):
+    if isinstance(o, dict):
+        if set(o.keys()) == {'hex'}:
+            return bytes.fromhex(o['hex'])
+        return {k: from_jsonable(v) for k, v in o.items()}
+    if isinstance(o, list):
+        return [from_jsonable(v) for v in o]
+    return o
+
+
+def load_replay(path):
+    obj = json.load(open(path))
+    case = obj['case'] if isinstance(obj, dict) and 'case' in obj else obj
+    return from_jsonable(case)
+
+
+def report_replay(pid, path, vs, known=None):
+    known = known or Known(pid)
+    bad = [v for v in vs if not known.matches(v)]
+    for v in vs:
+        if v in bad:
+            print('VIOLATION property=%s replay=%s' % (pid, path))
+            print('  kind=%s sig=%s facts=%s' % (v['kind'], v['sig'], jdump(v['facts'])[:600]))
+        else:
+            print('KNOWN-FINDING: property=%s %s [sig=%s]' % (pid, known.open.get(v['sig'], ''), v['sig']))
+    if not vs:
+        print('%s replay %s: no violation' % (pid, path))
+    return 1 if bad else 0
+
+
+def drive(coro):
+    """Run a coroutine that never really suspends (fake writers) to completion without an event loop."""
+    try:
+        coro.send(None)
+    except StopIteration as e:
+        return e.value
+    coro.close()
+    raise HarnessError('coroutine suspended unexpectedly')
